@@ -540,6 +540,12 @@ class AbstractDiagram(metaclass=abc.ABCMeta):
                 continue
 
             filename = self.uuid + ext
+            if helpers.normalize_pure_path(filename).parts != (filename,):
+                # The file handler would resolve this name to another
+                # one, which may be the cache entry of another diagram.
+                LOGGER.debug("Not a diagram cache file name: %s", filename)
+                continue
+
             try:
                 with cache_handler.open(filename) as f:
                     cache = f.read()
